@@ -240,6 +240,7 @@ type blobDigest struct {
 	kinds      map[string]bool // store operations that targeted it: put, import, chunked
 	faults     map[string]bool // reader faults that fired on its writers
 	active     int             // writers in flight
+	starts     int             // store operations started so far
 	overlapped bool            // two writers were in flight at once
 	chunkGap   bool            // a chunked session has (had) chunks not stored
 	stored     string          // operation whose nil return promised retrievability ("" none)
@@ -254,12 +255,17 @@ func (d *blobDigest) note(f string, a ...any) {
 	}
 }
 
-func (d *blobDigest) opKind() string {
+// opKind names the store operation a digest-level violation is attributed to.
+func (d *blobDigest) opKind(cause string) string {
 	switch {
-	case d.kinds["chunked"]:
+	case cause == "empty-blob":
+		return "store"
+	case cause == "partial-chunks":
 		return "chunked"
 	case d.kinds["put"]:
 		return "put"
+	case d.kinds["chunked"]:
+		return "chunked"
 	case d.kinds["import"]:
 		return "import"
 	}
@@ -710,11 +716,11 @@ func (w *blobWorld) opString(op blobOp) string {
 
 // ---- causes (middle part of the signature) ---------------------------------------
 
-func (w *blobWorld) digestCause(d *blobDigest) string {
+func (w *blobWorld) digestCause(d *blobDigest, chunks bool) string {
 	if d.n == 0 {
 		return "empty-blob"
 	}
-	if d.chunkGap {
+	if chunks && d.chunkGap {
 		// a chunked session (running, ended, or cut by the crash) has not stored all its chunks
 		return "partial-chunks"
 	}
@@ -746,12 +752,12 @@ func (w *blobWorld) nameCause(m *nameModel) string {
 	switch {
 	case m.crashLink:
 		return "crash-during-link"
-	case w.crashKind != "":
-		return "after-crash"
 	case m.overlap || m.active > 0:
 		return "concurrent-name-ops"
 	case m.lastMut == "link-failed":
 		return "after-failed-link"
+	case w.crashKind != "":
+		return "after-crash"
 	}
 	return "none"
 }
@@ -804,13 +810,16 @@ func (w *blobWorld) checkDigests(where string) {
 			sum, n, err := w.fileSum(d.d)
 			if err == nil && int64(n) == d.n && sum != d.d.sum {
 				got, _ := os.ReadFile(w.c.GetFile(d.d))
-				w.violate(d.opKind()+":"+w.digestCause(d)+":size-ok-content-bad",
+				cause := w.digestCause(d, true)
+				w.violate(d.opKind(cause)+":"+cause+":size-ok-content-bad",
 					"%s: Get(%s) reports the blob present with its size %d, but the file content has SHA-256 %x (%s)\nhistory of the digest: %s\ncase: %s",
 					where, d.d.Short(), d.n, sum[:6], describeDamage(d.data, got), strings.Join(d.hist, " | "), strings.Join(w.desc, "\n  "))
 				return
 			}
 		} else if d.stored != "" && d.n > 0 {
-			w.violate(d.opKind()+":"+w.digestCause(d)+":stored-blob-vanished",
+			// only a truncation makes a file shrink; chunk sessions never truncate
+			cause := w.digestCause(d, false)
+			w.violate(d.opKind(cause)+":"+cause+":stored-blob-vanished",
 				"%s: %s of %s (%d bytes) returned nil earlier, nothing removes blobs, but Get no longer reports it with its size\nhistory of the digest: %s\ncase: %s",
 				where, d.stored, d.d.Short(), d.n, strings.Join(d.hist, " | "), strings.Join(w.desc, "\n  "))
 			return
@@ -840,8 +849,12 @@ func (w *blobWorld) onStep() {
 func (w *blobWorld) storedOK(d *blobDigest, op string) {
 	verifsim.Atomic(func() {
 		if !w.present(d) {
-			cause := w.digestCause(d)
-			w.violate(strings.ToLower(op)+":"+cause+":store-ok-get-missing",
+			cause := w.digestCause(d, strings.HasPrefix(op, "Chunk"))
+			kind := strings.ToLower(op)
+			if cause == "empty-blob" {
+				kind = "store"
+			}
+			w.violate(kind+":"+cause+":store-ok-get-missing",
 				"%s of %s (%d bytes) returned nil but Get does not report the blob with that size (Get: %v)\nhistory of the digest: %s\ncase: %s",
 				op, d.d.Short(), d.n, blobGetErr(w.c, d.d), strings.Join(d.hist, " | "), strings.Join(w.desc, "\n  "))
 			return
@@ -864,6 +877,7 @@ func blobGetErr(c *DiskCache, d Digest) string {
 
 func (d *blobDigest) begin(kind string) {
 	d.kinds[kind] = true
+	d.starts++
 	if d.active > 0 {
 		d.overlapped = true
 		verifsim.Probe("same_digest_writers_overlap")
@@ -921,7 +935,7 @@ func (w *blobWorld) doImport(who string, op blobOp) {
 		t.kinds["import"] = true
 		t.note("%s Import of a corrupted source of d%d = %s", who, d.idx, got.Short())
 		if t.d != got {
-			w.violate("import:"+w.digestCause(d)+":import-digest-wrong", "Import returned %s for a source whose delivered bytes hash to %s", got.Short(), t.d.Short())
+			w.violate("import:"+w.digestCause(d, false)+":import-digest-wrong", "Import returned %s for a source whose delivered bytes hash to %s", got.Short(), t.d.Short())
 			return
 		}
 		verifsim.Probe("import_other_content")
@@ -1012,6 +1026,8 @@ func (w *blobWorld) doLink(who string, op blobOp) {
 		return "partial-file"
 	}
 	before := fileState()
+	quiet := d.active == 0
+	starts0 := d.starts
 	tk := m.beginMut(d.d.String())
 	m.note("%s Link(%s,d%d) starts (blob file: %s)", who, name, d.idx, before)
 	err := w.c.Link(name, d.d)
@@ -1032,9 +1048,13 @@ func (w *blobWorld) doLink(who string, op blobOp) {
 			return
 		}
 		// the state of the blob file when the call started names the cause
-		cause := before
-		if cause == "full-size-file" {
-			cause = fileState()
+		// no writer of the blob during the call: the state of the blob file when the call started names the cause
+		cause := "concurrent-blob-writer"
+		if quiet && d.starts == starts0 {
+			cause = before
+			if cause == "full-size-file" {
+				cause = fileState()
+			}
 		}
 		w.violate("link:"+cause+":link-ok-blob-absent",
 			"Link(%s, %s) returned nil although Get never reported the blob (size %d) present during the call (now: %s)\nhistory of the digest: %s\nhistory of the name: %s\ncase: %s",
